@@ -3,10 +3,12 @@
     verifier's canonical-S test and early rejection, clamping, and entropy consumption.  Layer B: the verification
     equation in exponent form.  Layer A' (Model/Fe.v): the GF(2^255-19) limb arithmetic of field/ as the Go code
     computes it (uint64 wrap-around, 128-bit accumulators), proved to be the field operations under the limb bounds
-    the code maintains.  The scalar limb arithmetic (scalar.go) and the point formulas and tables built on the field
-    remain primitives, tied to Z mod L and the Edwards group by differential execution only (partial). *)
+    the code maintains; Model/EdPoint.v: the extended-coordinate points on top of it, proved to compute the RFC 8032
+    addition and doubling formulas on the field values.  The scalar limb arithmetic (scalar.go) and the windowed scalar
+    multiplications with their tables remain primitives, tied to Z mod L and to the model's double-and-add by
+    differential execution only (partial). *)
 From Coq Require Import Field Bool.
-From PatVerif Require Import Model.Ed25519 Proofs.Ed25519P Model.Fe Proofs.FeP Model.Ecdsa Proofs.EcdsaP Model.Algebra Proofs.AlgebraP.
+From PatVerif Require Import Model.Ed25519 Proofs.Ed25519P Model.Fe Proofs.FeP Model.EdPoint Proofs.EdPointP Model.Ecdsa Proofs.EcdsaP Model.Algebra Proofs.AlgebraP.
 Open Scope N_scope.
 
 (** scalar.isReduced (byte-wise comparison with L-1 from the most significant byte) decides value < L,
@@ -133,3 +135,53 @@ Example field_examples :
   fe_bytes (mkfe 18446744073709551615 18446744073709551615 18446744073709551615 18446744073709551615 18446744073709551615)
     = le_bytes 32 ((18446744073709551615 * (1 + 2 ^ 51 + 2 ^ 102 + 2 ^ 153 + 2 ^ 204)) mod fe_p).
 Proof. vm_compute. repeat split; reflexivity. Qed.
+
+(** ---- the points (Model/EdPoint.v mirrors edwards25519.go: cached form, P1xP1, Add, Subtract, Double, Negate) ----
+    [pt_ok]: all four coordinates tight.  [fz]: the value of a field element as an integer; [==]: congruence modulo p.
+    For ALL bounded inputs (on the curve or not) the results are bounded again and are the formulas of RFC 8032, 5.1.4,
+    evaluated in the field. *)
+Theorem point_add_is_rfc8032 : forall p q, pt_ok p -> pt_ok q ->
+  pt_ok (pt_add p q) /\
+  eqp (fz (px (pt_add p q))) (add_X3 (fz (px p)) (fz (py p)) (fz (pz p)) (fz (pt p)) (fz (px q)) (fz (py q)) (fz (pz q)) (fz (pt q))) /\
+  eqp (fz (py (pt_add p q))) (add_Y3 (fz (px p)) (fz (py p)) (fz (pz p)) (fz (pt p)) (fz (px q)) (fz (py q)) (fz (pz q)) (fz (pt q))) /\
+  eqp (fz (pz (pt_add p q))) (add_Z3 (fz (px p)) (fz (py p)) (fz (pz p)) (fz (pt p)) (fz (px q)) (fz (py q)) (fz (pz q)) (fz (pt q))) /\
+  eqp (fz (pt (pt_add p q))) (add_T3 (fz (px p)) (fz (py p)) (fz (pz p)) (fz (pt p)) (fz (px q)) (fz (py q)) (fz (pz q)) (fz (pt q))).
+Proof. exact pt_add_formula. Qed.
+Print Assumptions point_add_is_rfc8032.
+
+(** subtraction is the addition of the negated point (x and t negated) *)
+Theorem point_sub_is_add_of_negation : forall p q, pt_ok p -> pt_ok q ->
+  pt_ok (pt_sub p q) /\
+  eqp (fz (px (pt_sub p q))) (add_X3 (fz (px p)) (fz (py p)) (fz (pz p)) (fz (pt p)) (- fz (px q)) (fz (py q)) (fz (pz q)) (- fz (pt q))) /\
+  eqp (fz (py (pt_sub p q))) (add_Y3 (fz (px p)) (fz (py p)) (fz (pz p)) (fz (pt p)) (- fz (px q)) (fz (py q)) (fz (pz q)) (- fz (pt q))) /\
+  eqp (fz (pz (pt_sub p q))) (add_Z3 (fz (px p)) (fz (py p)) (fz (pz p)) (fz (pt p)) (- fz (px q)) (fz (py q)) (fz (pz q)) (- fz (pt q))) /\
+  eqp (fz (pt (pt_sub p q))) (add_T3 (fz (px p)) (fz (py p)) (fz (pz p)) (fz (pt p)) (- fz (px q)) (fz (py q)) (fz (pz q)) (- fz (pt q))).
+Proof. exact pt_sub_formula. Qed.
+Print Assumptions point_sub_is_add_of_negation.
+
+(** doubling: the RFC formulas with all four coordinates negated (the code computes -E and -G), the same projective point *)
+Theorem point_double_is_rfc8032 : forall p, pt_ok p ->
+  pt_ok (pt_double p) /\
+  eqp (fz (px (pt_double p))) (- (dbl_E (fz (px p)) (fz (py p)) * dbl_F (fz (px p)) (fz (py p)) (fz (pz p)))) /\
+  eqp (fz (py (pt_double p))) (- (dbl_G (fz (px p)) (fz (py p)) * dbl_H (fz (px p)) (fz (py p)))) /\
+  eqp (fz (pz (pt_double p))) (- (dbl_F (fz (px p)) (fz (py p)) (fz (pz p)) * dbl_G (fz (px p)) (fz (py p)))) /\
+  eqp (fz (pt (pt_double p))) (- (dbl_E (fz (px p)) (fz (py p)) * dbl_H (fz (px p)) (fz (py p)))).
+Proof. exact pt_double_formula. Qed.
+Print Assumptions point_double_is_rfc8032.
+
+(** X*Y = Z*T holds for every result, whatever the (bounded) inputs were; every multiple computed by double-and-add from
+    a bounded point is bounded: no limb operation wraps anywhere in a scalar multiplication of the model *)
+Theorem point_results_keep_extended_invariant : forall p q, pt_ok p -> pt_ok q ->
+  ext_inv (pt_add p q) /\ ext_inv (pt_sub p q) /\ ext_inv (pt_double p).
+Proof. intros p q Hp Hq. split; [|split]; [exact (pt_add_ext_inv p q Hp Hq) | exact (pt_sub_ext_inv p q Hp Hq) | exact (pt_double_ext_inv p Hp)]. Qed.
+Print Assumptions point_results_keep_extended_invariant.
+
+Theorem point_multiples_stay_bounded : forall n p, pt_ok p -> pt_ok (pt_mul n p).
+Proof. exact pt_mul_ok. Qed.
+Print Assumptions point_multiples_stay_bounded.
+
+(** the base point decoded by the model is bounded; doubling and adding it to itself give the same point *)
+Example point_examples :
+  pt_ok ed_base /\ pt_equal (pt_double ed_base) (pt_add ed_base ed_base) = true /\
+  pt_equal (pt_add ed_base (pt_neg ed_base)) pt_identity = true.
+Proof. split; [exact ed_base_ok|]. vm_compute. split; reflexivity. Qed.
